@@ -234,6 +234,33 @@ class C13(Check):
         if stratum in ('S-fault', 'S-all'):
             for f in range(rng.randint(1, 2)):
                 ops, kind = self.gen_fault_workflow(rng, 10 + f)
+                cands = [(fi, oi) for fi, fl in enumerate(flows[:K]) for oi, o in enumerate(fl)
+                         if o['op'] == 'compile' and o.get('api', 'get_run_func') == 'get_run_func']
+                if cands and rng.random() < 0.4:
+                    # TWIN: the failing user compiles exactly what another workflow compiles (same model, same options -> same
+                    # generated source), and is interrupted / hit by an I/O error while doing so
+                    fi, oi = rng.choice(cands)
+                    wid = 10 + f
+                    pre = [o for o in flows[fi][:oi] if o['op'] in ('construct', 'update_var')]
+                    last_c = max(i for i, o in enumerate(pre) if o['op'] == 'construct')
+                    ops = []
+                    for o in pre[last_c:] + [flows[fi][oi]]:
+                        o = copy.deepcopy(o)
+                        o['wf'] = wid
+                        o['obj'] = f'M{wid}'
+                        if o['op'] == 'construct':
+                            o['fname'] = f'm_w{wid}'
+                        if o['op'] == 'compile':
+                            o['handle'] = f'F{wid}'
+                            o.pop('input', None)
+                            fk = rng.choice(['genmodule', 'genmodule', 'intr', 'io'])
+                            if fk == 'io':
+                                o['fault'] = {'kind': 'io', 'target': 'src_write', 'nth': 1, 'errno': rng.choice(['ENOSPC', 'EIO']),
+                                              'short': rng.random() < 0.5}
+                            else:
+                                o['fault'] = {'kind': 'intr', 'at_call': rng.randint(1, 1400), 'genmodule': fk == 'genmodule'}
+                        ops.append(o)
+                    kind = 'twin'
                 flows.append(ops)
                 fault_kinds.append(kind)
         # seeded scheduler: random merge of the workflows' op lists
